@@ -84,6 +84,7 @@ def template_scenario(prog, template, seq):
 def run(prog, chk):
     utf8_table(prog, chk)
     integer_table(prog, chk)
+    imprint_table(prog, chk)
     _run(prog, chk)
 
 
@@ -374,3 +375,48 @@ def integer_table(prog, chk):
             want = "KSI_INVALID_FORMAT (%s)" % ("longer than 8 bytes" if len(bs) > 8 else "leading zero byte")
         chk.ob("C10.integer", inst, ok, "expected %s; source: status %s, value %s, stored %s" % (want, hex(q.ret) if isinstance(q.ret, int) else q.ret,
                                                                                            [hex(m) if isinstance(m, int) else m for m in made], out), loc=fn.loc(), fn=fn)
+
+
+DIGEST_LEN = {0x00: 20, 0x01: 32, 0x02: 20, 0x04: 48, 0x05: 64, 0x07: 28, 0x08: 32, 0x09: 48, 0x0a: 64, 0x0b: 32}   # KSI algorithm registry
+
+
+def imprint_table(prog, chk):
+    """KSI_DataHash_fromImprint over (algorithm id, length): accepted iff the id is in the registry and the length is 1 + its digest length."""
+    from ksirules.bufinterp import BufInterp
+    from ksirules.interp import TOP, Ptr, inline_model, succeed_model
+    chk.rule("C10.imprint", "imprint parser: known algorithm id and exactly matching length (registry table x length boundaries)", floor=40)
+    fn = prog.fn("KSI_DataHash_fromImprint", "hash.c")
+    cp, ip, lp, hp = [p["n"] for p in fn.params]
+    helpers = {"KSI_DataHash_fromDigest", "ksi_isHashAlgorithmIdValid", "KSI_getHashLength"}
+    n = 0
+    for alg in list(range(0, 14)) + [0x7e, 0xff]:
+        want_len = DIGEST_LEN.get(alg)
+        lens = sorted({0, 1, 2} | ({want_len, want_len + 1, want_len + 2} if want_len else {21, 33, 65}))
+        for total in lens:
+            inputs = {cp: Ptr("ctx"), ip: Ptr("IMP"), lp: total, hp: Ptr("OUT"), "IMP[0]": alg}
+
+            def alloc(I, p, node, args):
+                I.write(p, lvalue_key(strip(node["a"][1])["e"], I.fn), Ptr("H"))
+                return 0
+            ov = {"alloc_dataHash": alloc, "memcpy": lambda I, p, n_, a: a[0], "KSI_DataHash_free": lambda I, p, n_, a: TOP}
+            I = BufInterp(fn, {"IMP": max(total, 1)}, inputs=inputs, call_model=inline_model(prog, helpers, fallback=succeed_model(prog, ov)),
+                          on_unknown="stop", prog=prog)
+            paths = I.run()
+            chk.paths += len(paths)
+            n += 1
+            inst = "fromImprint[algorithm=%#04x,length=%d]" % (alg, total)
+            if len(paths) != 1 or paths[0].undetermined:
+                raise AnalysisBroken("KSI_DataHash_fromImprint: evaluation not determined for %s: %s" % (inst, [q.undetermined[:1] for q in paths]))
+            q = paths[0]
+            out = [t[2] for t in q.stores("*" + hp)] + [t[2] for t in q.stores("OUT")]
+            ok_expected = want_len is not None and total == want_len + 1
+            if ok_expected:
+                ok = q.ret == 0 and out == [Ptr("H")] and [t[2] for t in q.stores("H->imprint_length")][-1:] == [total] and \
+                    [t[2] for t in q.stores("H->imprint[0]")][-1:] == [alg]
+            else:
+                ok = q.ret not in (0, None) and not out
+            chk.ob("C10.imprint", inst, ok, "expected %s; source: status %s, stored %s" %
+                   ("accepted, %d bytes kept" % total if ok_expected else "refused", hex(q.ret) if isinstance(q.ret, int) else q.ret, out), loc=fn.loc(), fn=fn,
+                   nontrivial=ok_expected or (want_len is not None and total == want_len + 2))
+    if n < 40:
+        raise AnalysisBroken("imprint table: only %d cases" % n)
